@@ -1,7 +1,244 @@
-(* C12 - CBOR decoder accepts only complete well-formed items, exact values. *)
-From WP Require Import Base.Prelude Model.Cbor.
+(* C12 - CBOR decoder accepts only complete well-formed items, exact values.
+
+   "Decoding what the encoder produced returns the original values for every
+   value in range; more generally a decode call succeeds only on a complete,
+   well-formed, definite-length item of the requested major type, returns the
+   value RFC 8949 assigns to it and consumes exactly that item's bytes, so
+   truncated items, reserved or indefinite-length heads, wrong types, invalid
+   UTF-8 text and lengths exceeding the remaining input are all errors."
+
+   Statements only; proofs live in Proofs/CborDecode.v.  The reference is the
+   independent head decoder Spec.Cbor.shead (major, argument, width, rest)
+   and the declarative Spec.Cbor.Utf8Valid.  MBytes/MText/MMap are the model's
+   Go type constants (Model.Cbor.TBytes ...), which clash by name with the
+   spec's token constructors. *)
+From Coq Require Import Lia.
+From WP Require Import Base.Prelude Model.Cbor Spec.Cbor.
+From WP Require Import Proofs.BaseLemmas Proofs.CborHead Proofs.CborUtf8 Proofs.CborDecode.
 Open Scope N_scope.
 
-Theorem c12_smoke : decode_uint [25; 1; 244; 7] = Ok (500, [7]).
-Proof. reflexivity. Qed.
-Print Assumptions c12_smoke.
+(* ---- decode (encode v ++ rest) = (v, rest) ---------------------------------- *)
+Theorem decode_encode_uint : forall n rest,
+  n < two64 -> decode_uint (enc_uint n ++ rest) = Ok (n, rest).
+Proof. exact CborDecode.decode_encode_uint. Qed.
+Print Assumptions decode_encode_uint.
+
+Theorem decode_encode_array_header : forall n rest,
+  n < two64 -> decode_array_header (enc_array_header n ++ rest) = Ok (n, rest).
+Proof. exact CborDecode.decode_encode_array_header. Qed.
+Print Assumptions decode_encode_array_header.
+
+Theorem decode_encode_map_header : forall n rest,
+  n < two64 -> decode_map_header (enc_map_header n ++ rest) = Ok (n, rest).
+Proof. exact CborDecode.decode_encode_map_header. Qed.
+Print Assumptions decode_encode_map_header.
+
+Theorem decode_encode_bytes : forall s rest,
+  lenN s < two63 -> decode_bytes (enc_bytes s ++ rest) = Ok (s, rest).
+Proof. exact CborDecode.decode_encode_bytes. Qed.
+Print Assumptions decode_encode_bytes.
+
+Theorem decode_encode_text : forall s out rest,
+  lenN s < two63 -> enc_text s = Ok out -> decode_text (out ++ rest) = Ok (s, rest).
+Proof. exact CborDecode.decode_encode_text. Qed.
+Print Assumptions decode_encode_text.
+
+Theorem decode_encode_int_nonneg : forall z rest,
+  (0 <= z < Z.of_N two63)%Z -> decode_uint (enc_int z ++ rest) = Ok (Z.to_N z, rest).
+Proof. exact CborDecode.decode_encode_int_nonneg. Qed.
+Print Assumptions decode_encode_int_nonneg.
+
+(* the read position after one item is exactly the start of the next *)
+Theorem decode_encode_stream : forall n s rest,
+  n < two64 -> lenN s < two63 ->
+  (let* (v1, r1) := decode_uint (enc_uint n ++ enc_bytes s ++ rest) in
+   let* (v2, r2) := decode_bytes r1 in Ok (v1, v2, r2)) = Ok (n, s, rest).
+Proof. exact CborDecode.decode_encode_stream. Qed.
+Print Assumptions decode_encode_stream.
+
+(* ---- soundness: success only on a well-formed head of the right type ----- *)
+Theorem decode_sound : forall t n bs rest,
+  major_const t -> decode_of_type t bs = Ok (n, rest) ->
+  exists w, shead bs = Some (t / 32, n, w, rest).
+Proof. exact CborDecode.decode_sound. Qed.
+Print Assumptions decode_sound.
+
+Theorem decode_bytes_sound : forall bs s rest,
+  decode_bytes bs = Ok (s, rest) ->
+  exists h w, bs = h ++ s ++ rest /\ lenN h = 1 + w /\
+              shead bs = Some (2, lenN s, w, s ++ rest).
+Proof. exact CborDecode.decode_bytes_sound. Qed.
+Print Assumptions decode_bytes_sound.
+
+Theorem decode_text_sound : forall bs s rest,
+  decode_text bs = Ok (s, rest) ->
+  exists h w, bs = h ++ s ++ rest /\ lenN h = 1 + w /\
+              shead bs = Some (3, lenN s, w, s ++ rest) /\ Utf8Valid s.
+Proof. exact CborDecode.decode_text_sound. Qed.
+Print Assumptions decode_text_sound.
+
+(* what "shead bs = Some ..." means byte by byte (RFC 8949 section 3) *)
+Theorem shead_shape : forall bs mt n w r,
+  shead bs = Some (mt, n, w, r) ->
+  exists b f, bs = b :: f ++ r /\ lenN f = w /\ b < 256 /\ mt = b / 32 /\ mt < 8 /\
+              ((w = 0 /\ b mod 32 < 24 /\ n = b mod 32) \/
+               (24 <= b mod 32 <= 27 /\ w = 2 ^ (b mod 32 - 24) /\ n = be_val f)).
+Proof. exact CborDecode.shead_shape. Qed.
+Print Assumptions shead_shape.
+
+Theorem decode_consumes : forall t n bs rest,
+  major_const t -> decode_of_type t bs = Ok (n, rest) ->
+  exists h, bs = h ++ rest /\ 1 <= lenN h <= 9.
+Proof. exact CborDecode.decode_consumes. Qed.
+Print Assumptions decode_consumes.
+
+(* ---- completeness: every well-formed head (any width) is accepted -------- *)
+Theorem decode_complete : forall t n w bs rest,
+  major_const t -> shead bs = Some (t / 32, n, w, rest) ->
+  decode_of_type t bs = Ok (n, rest).
+Proof. exact CborDecode.decode_complete. Qed.
+Print Assumptions decode_complete.
+
+Theorem decode_bytes_complete : forall bs s rest r n w,
+  shead bs = Some (2, n, w, r) -> n < two63 -> splitN r n = Some (s, rest) ->
+  decode_bytes bs = Ok (s, rest).
+Proof. exact CborDecode.decode_bytes_complete. Qed.
+Print Assumptions decode_bytes_complete.
+
+Theorem decode_text_complete : forall bs s rest r n w,
+  shead bs = Some (3, n, w, r) -> n < two63 -> splitN r n = Some (s, rest) ->
+  Utf8Valid s -> decode_text bs = Ok (s, rest).
+Proof. exact CborDecode.decode_text_complete. Qed.
+Print Assumptions decode_text_complete.
+
+(* both directions at once *)
+Theorem decode_of_type_iff : forall t n bs rest,
+  major_const t ->
+  (decode_of_type t bs = Ok (n, rest) <-> exists w, shead bs = Some (t / 32, n, w, rest)).
+Proof. exact CborDecode.decode_of_type_iff. Qed.
+Print Assumptions decode_of_type_iff.
+
+Theorem decode_bytes_of_type_iff : forall t bs s rest,
+  major_const t ->
+  (decode_bytes_of_type t bs = Ok (s, rest) <->
+   lenN s < two63 /\ exists w, shead bs = Some (t / 32, lenN s, w, s ++ rest)).
+Proof. exact CborDecode.decode_bytes_of_type_iff. Qed.
+Print Assumptions decode_bytes_of_type_iff.
+
+Theorem decode_text_iff : forall bs s rest,
+  decode_text bs = Ok (s, rest) <->
+  lenN s < two63 /\ Utf8Valid s /\ exists w, shead bs = Some (3, lenN s, w, s ++ rest).
+Proof. exact CborDecode.decode_text_iff. Qed.
+Print Assumptions decode_text_iff.
+
+(* ---- rejections ----------------------------------------------------------------- *)
+Theorem decode_rejects_head : forall t bs,
+  major_const t ->
+  (bs = []
+   \/ (exists b r, bs = b :: r /\ 28 <= b mod 32)
+   \/ (exists b r, bs = b :: r /\ 24 <= b mod 32 <= 27 /\ lenN r < 2 ^ (b mod 32 - 24))
+   \/ (exists mt n w r, shead bs = Some (mt, n, w, r) /\ mt <> t / 32))
+  -> decode_of_type t bs = Err.
+Proof. exact CborDecode.decode_rejects_head. Qed.
+Print Assumptions decode_rejects_head.
+
+Theorem decode_rejects_reserved : forall t b r,
+  28 <= b mod 32 -> decode_of_type t (b :: r) = Err.
+Proof. exact CborDecode.decode_rejects_reserved. Qed.
+Print Assumptions decode_rejects_reserved.
+
+Theorem decode_rejects_wrong_type : forall t b r,
+  major b <> t -> decode_of_type t (b :: r) = Err.
+Proof. exact CborDecode.decode_rejects_wrong_type. Qed.
+Print Assumptions decode_rejects_wrong_type.
+
+(* declared length exceeds the remaining input, or does not fit an int64 *)
+Theorem decode_rejects_string : forall t bs n w r,
+  major_const t -> shead bs = Some (t / 32, n, w, r) ->
+  (lenN r < n \/ two63 <= n) -> decode_bytes_of_type t bs = Err.
+Proof. exact CborDecode.decode_rejects_string. Qed.
+Print Assumptions decode_rejects_string.
+
+Theorem decode_rejects_text_utf8 : forall bs s rest w,
+  shead bs = Some (3, lenN s, w, s ++ rest) -> ~ Utf8Valid s -> decode_text bs = Err.
+Proof. exact CborDecode.decode_rejects_text_utf8. Qed.
+Print Assumptions decode_rejects_text_utf8.
+
+(* a head error is a string error *)
+Theorem decode_string_head_err : forall t bs,
+  decode_of_type t bs = Err -> decode_bytes_of_type t bs = Err.
+Proof. exact CborDecode.decode_bytes_of_type_head_err. Qed.
+Print Assumptions decode_string_head_err.
+
+(* exactly when the independent head decoder fails *)
+Theorem shead_none_iff : forall bs,
+  shead bs = None <->
+  bs = [] \/ exists b r, bs = b :: r /\
+    (256 <= b \/ 28 <= b mod 32 \/ (24 <= b mod 32 <= 27 /\ lenN r < 2 ^ (b mod 32 - 24))).
+Proof. exact CborDecode.shead_none_iff. Qed.
+Print Assumptions shead_none_iff.
+
+(* ---- no panic, no divergence -------------------------------------------------- *)
+Theorem decode_never_panics : forall bs,
+  ok_or_err (decode_uint bs) /\ ok_or_err (decode_array_header bs) /\
+  ok_or_err (decode_map_header bs) /\ ok_or_err (decode_bytes bs) /\
+  ok_or_err (decode_text bs).
+Proof. exact CborDecode.decode_never_panics. Qed.
+Print Assumptions decode_never_panics.
+
+(* ==== non-vacuity ================================================================ *)
+Definition max64 : N := 18446744073709551615.
+Definition all_bytes : list N := map N.of_nat (seq 0 256).
+
+(* the 256-way split on the initial byte, with nothing after it: DecodeUint
+   accepts exactly 0x00..0x17; with 8 zero bytes after it, exactly 0x00..0x1b;
+   DecodeByteString then accepts 0x40..0x48 (length <= 8 available) and
+   0x58..0x5b (length 0 in 1/2/4/8 bytes) *)
+Example ex_initial_byte_sweep :
+  forallb (fun b => Bool.eqb (is_ok (decode_uint [b])) (b <? 24)) all_bytes = true /\
+  forallb (fun b => Bool.eqb (is_ok (decode_uint (b :: [0;0;0;0;0;0;0;0]))) (b <? 28))
+          all_bytes = true /\
+  forallb (fun b => Bool.eqb (is_ok (decode_bytes (b :: [0;0;0;0;0;0;0;0])))
+                             ((64 <=? b) && (b <=? 72) || (88 <=? b) && (b <=? 91)))
+          all_bytes = true.
+Proof. vm_compute. repeat split. Qed.
+
+Example ex_decode_boundaries :
+  map (fun n => decode_uint (enc_uint n ++ [7]))
+      [23; 24; 255; 256; 65535; 65536; 4294967296; two63; max64]
+  = map (fun n => Ok (n, [7])) [23; 24; 255; 256; 65535; 65536; 4294967296; two63; max64].
+Proof. vm_compute. reflexivity. Qed.
+
+(* non-shortest heads are accepted with the right value (decode_complete) *)
+Example ex_non_shortest :
+  decode_uint [27; 0; 0; 0; 0; 0; 0; 0; 23; 9] = Ok (23, [9]) /\
+  shead [27; 0; 0; 0; 0; 0; 0; 0; 23; 9] = Some (TPos / 32, 23, 8, [9]) /\
+  decode_bytes [89; 0; 2; 5; 6; 9] = Ok ([5; 6], [9]).
+Proof. vm_compute. repeat split. Qed.
+
+Example ex_rejects :
+  decode_uint [28] = Err /\ decode_uint [31] = Err /\             (* reserved / indefinite *)
+  decode_bytes [95] = Err /\                                      (* indefinite byte string *)
+  decode_uint [64] = Err /\ decode_array_header [160] = Err /\    (* wrong major type *)
+  decode_uint [25; 1] = Err /\ decode_uint [] = Err /\            (* truncated head *)
+  decode_bytes [67; 1; 2] = Err /\                                (* length > remaining *)
+  decode_bytes [91; 128; 0; 0; 0; 0; 0; 0; 0] = Err /\            (* length 2^63 *)
+  decode_text [98; 195; 40] = Err /\                              (* invalid UTF-8 *)
+  decode_text [98; 195; 169; 1] = Ok ([195; 169], [1]).
+Proof. vm_compute. repeat split. Qed.
+
+Example ex_rejects_hyps :
+  shead [91; 128; 0; 0; 0; 0; 0; 0; 0] = Some (MBytes / 32, two63, 8, []) /\
+  shead [67; 1; 2] = Some (MBytes / 32, 3, 0, [1; 2]) /\
+  shead [98; 195; 40] = Some (3, lenN [195; 40], 0, [195; 40] ++ []) /\
+  ~ Utf8Valid [195; 40].
+Proof.
+  split; [vm_compute; reflexivity|]. split; [vm_compute; reflexivity|].
+  split; [vm_compute; reflexivity|].
+  intros H. apply CborUtf8.utf8_dfa_correct in H. vm_compute in H. discriminate.
+Qed.
+
+Example ex_roundtrip_text :
+  enc_text [226; 130; 172] = Ok [99; 226; 130; 172] /\
+  decode_text ([99; 226; 130; 172] ++ [0]) = Ok ([226; 130; 172], [0]).
+Proof. vm_compute. split; reflexivity. Qed.
